@@ -641,13 +641,9 @@ PROPS["C15"] = dict(
                  "float comparison (floatsRT): every finite f64 serialised as a value is read back from its printed text as the same "
                  "double — C07 + ryu correctness under float_roundtrip, short literals (<= 15 digits, |exp| <= 22) by default (C08), "
                  "vacuous under arbitrary_precision; the correspondence compares exactly under fr/ap/short and with floats erased otherwise",
-                 "ParserComplete (only for c15_agree_of_parser): the &str parser returns canon(t) on every derivable text within its "
-                 "side conditions — C01 completeness + C02, proved on the parser branches"],
-    partial=["c15_keys_partial: agreement of the two key serializers is proved for keys that do not reach serialize_some; for Some(_) "
-             "keys the pinned sources differ (c15_some_key_disagrees, c15_key_dispatch; known finding C15-some-key) and all agreement "
-             "theorems carry the hypothesis hasSomeKey p = false",
-             "c15_agree_partial: to_value p = canon (the syntax tree of to_string (widenF32 p)); 'equals the Value obtained by parsing' "
-             "needs the named hypothesis ParserComplete (c15_agree_of_parser) and the parser's side conditions (nesting <= 127)"],
+                 "c15_agree: the printed value nests at most 127 deep (SVal.nest p <= 127) unless the recursion limit is off; for byte "
+                 "sources the Rust string invariant SVal.utf8OK p (every &str handed over is UTF-8, every char a scalar value)"],
+    partial=[],
     technique="Lean 4 theorems over all serializer programs: the transcription of value::Serializer / SerializeVec / SerializeMap / "
               "SerializeTupleVariant / SerializeStructVariant / value::ser::MapKeySerializer / Number::from_* is related by one mutual "
               "induction to the data-model image that the text serializer is proved (C03) to print; the dispatch tables of both "
@@ -659,16 +655,18 @@ PROPS["C15"] = dict(
                "128-bit integers outside [i64::MIN, u64::MAX] without arbitrary_precision, which fail with NumberOutOfRange "
                "(c15_success_iff, c15_128_error); both fail with the same error class (c15_error_iff); on success the result is the "
                "Value denoted — under the parser's own classification rules — by the same data-model image that to_string is proved "
-               "to print, with f32 widened (c15_value_is_image, c15_valueOfImage_is_canon, c15_agree_partial). The two key serializers "
-               "agree on every key that does not reach serialize_some (c15_keys_partial); for Some(_) keys the pinned tree deviates — "
-               "kernel-checked counter-example c15_some_key_disagrees, reproduced on the crate (known finding C15-some-key) — and the "
-               "agreement theorems exclude such programs. The key-serializer dispatch tables are regenerated from the source each "
+               "to print, with f32 widened (c15_value_is_image, c15_valueOfImage_is_canon), and it is exactly the Value obtained by parsing "
+               "to_string of the f32-widened data, from every input source (c15_agree: parser completeness is the theorem parserComplete, "
+               "from C01 c01_complete_value and C02 c02_canonM_eq_canon; the printed tree's side conditions are derived from the "
+               "program: depth = SVal.nest <= 127, no \\u escape but \\u00XX, strings UTF-8 from SVal.utf8OK, numbers in range because "
+               "the value exists). The two key serializers agree on every key program, Some(_) keys included (c15_keys; the former "
+               "deviation C15-some-key is fixed in /repo). The key-serializer dispatch tables are regenerated from the source each "
                "run and tied to the models (c15_key_dispatch); the model is compared with serde_json::to_value on generated "
                "programs and the property's statement is evaluated on the crate's own outputs.",
     level_note="Trusted: Lean kernel + propext/Classical.choice/Quot.sound; extract.py; harness/driver comparison; itoa/ryu as assumed "
                "parameters; C03's model of the text serializer; BTreeMap/IndexMap insert semantics; Model.Num as the parser's number "
-               "semantics. Partial: Some(_) map keys (genuine deviation of the pinned tree, open finding); equality with the *parsed* "
-               "Value is conditional on parser completeness (C01/C02); f64 equality under the stated float proviso.",
+               "semantics. f64 equality under the stated float proviso (floatsRT); agreement with the parsed Value for programs whose "
+               "printed value nests at most 127 deep (sharp: progDeep in SJ/Props/C15.lean).",
 )
 
 PROPS["C04"] = dict(
